@@ -5,6 +5,8 @@ package workflow
 import (
 	"context"
 
+	"go.flow.arcalot.io/engine/internal/infer"
+
 	"go.flow.arcalot.io/engine/internal/verifrt"
 )
 
@@ -375,4 +377,118 @@ func VerifH_C08_validation_order() {
 		verifrt.Assert(!verifRejectOutput && verifOutputValidated >= 1, "an output is returned only after its schema accepted the data")
 	}
 	verifRejectStageInput, verifRejectOutput = false, false
+}
+
+// C14: a prepared workflow run twice in a row (whatever the first run's outcome) gives, each time, what
+// an isolated run gives; the prepared graph is not consumed.
+func VerifH_C14_rerun() {
+	t := verifChain2()
+	h := &vRunHolder{byG: map[int]*vRun{}}
+	ew, _ := verifPrepareH(t, h)
+	edges0 := verifEdges(ew.dag)
+	for k := 0; k < 2; k++ {
+		run := newRun()
+		h.cur = run
+		in := verifrt.NondetVal("input")
+		res := verifExecute(ew, run, t, in)
+		verifCheck(t, run, res, verifNorm(in), vCheckOpts{})
+	}
+	a, b := verifDiff(edges0, verifEdges(ew.dag))
+	verifrt.Assert(len(a) == 0 && len(b) == 0, "running a prepared workflow leaves its dependency graph untouched")
+}
+
+// C14: two overlapping runs of one prepared workflow with different inputs do not see each other.
+func VerifH_C14_concurrent() {
+	t := verifChain2()
+	for i := range t.steps {
+		t.steps[i].outcome = map[string]int{"deploy": 0, "start": 0}
+	}
+	h := &vRunHolder{byG: map[int]*vRun{}}
+	ew, _ := verifPrepareH(t, h)
+	edges0 := verifEdges(ew.dag)
+	runA, runB := newRun(), newRun()
+	inA, inB := verifrt.NondetVal("inputA"), verifrt.NondetVal("inputB")
+	var resB *vResult
+	done := make(chan struct{})
+	h.byG[verifrt.Gid()] = runA
+	go func() {
+		verifAtomicBind(h, verifrt.Gid(), runB)
+		resB = verifExecute(ew, runB, t, inB)
+		close(done)
+	}()
+	resA := verifExecute(ew, runA, t, inA)
+	<-done
+	verifCheck(t, runA, resA, verifNorm(inA), vCheckOpts{})
+	verifCheck(t, runB, resB, verifNorm(inB), vCheckOpts{})
+	a, b := verifDiff(edges0, verifEdges(ew.dag))
+	verifrt.Assert(len(a) == 0 && len(b) == 0, "running a prepared workflow leaves its dependency graph untouched")
+}
+
+func verifAtomicBind(h *vRunHolder, gid int, r *vRun) { h.byG[gid] = r }
+
+// C15: one object with a required, a wait-optional and a soft-optional field.
+func VerifH_C15_optional_fields() {
+	ok := map[string]int{"deploy": 0, "start": 0}
+	t := tWorkflow{
+		steps: []tStep{
+			{id: "a", fields: map[string]any{"input": verifStepInput(vx("input"))}, outcome: map[string]int{"deploy": 0, "start": 0, "result": 0}},
+			{id: "c", fields: map[string]any{"input": verifStepInput(vx("input"))}, outcome: ok},
+			{id: "b", fields: map[string]any{"input": map[any]any{
+				"x": vx("steps", "a", "outputs", "success", "v"),
+				"w": &infer.OptionalExpression{Expr: vx("steps", "c", "outputs", "success", "v"), WaitForCompletion: true},
+			}}, outcome: map[string]int{"deploy": 0, "start": 0, "result": 0}},
+			{id: "d", fields: map[string]any{"input": map[any]any{
+				"x": vx("steps", "a", "outputs", "success", "v"),
+				"s": &infer.OptionalExpression{Expr: vx("steps", "c", "outputs", "success", "v"), WaitForCompletion: false},
+			}}, outcome: map[string]int{"deploy": 0, "start": 0, "result": 0}},
+		},
+		outputs: map[string]any{"success": map[any]any{"b": vx("steps", "b", "outputs", "success", "v"), "d": vx("steps", "d", "outputs", "success", "v")}},
+	}
+	ew, run := verifPrepare(t)
+	in := verifrt.NondetVal("input")
+	res := verifExecute(ew, run, t, in)
+	verifCheck(t, run, res, verifNorm(in), vCheckOpts{})
+	// a soft-optional field never delays its consumer: d starts although c never ends
+	if c := run.steps["c"]; c != nil && c.never && res.stuck {
+		verifrt.Reach("source-never-ends")
+		started := false
+		for _, h := range run.handovers {
+			if h.step == "d" && h.stage == "starting" {
+				started = true
+			}
+		}
+		verifrt.Assert(started, "a soft-optional field never delays its consumer")
+	}
+}
+
+// C15: one-of in a step input and or-disabled (a one-of over enabled/disabled) in the workflow output.
+func VerifH_C15_oneof_ordisabled() {
+	t := tWorkflow{
+		steps: []tStep{
+			{id: "a", fields: map[string]any{"input": verifStepInput(vx("input"))}, outcome: map[string]int{"deploy": 0, "start": 0}},
+			{id: "b", fields: map[string]any{
+				"input": map[any]any{"x": &infer.OneOfExpression{Discriminator: "kind", Options: map[string]any{
+					"good": map[any]any{"v": vx("steps", "a", "outputs", "success", "v")},
+					"bad":  map[any]any{"v": vx("steps", "a", "outputs", "error", "v")},
+				}}},
+				"enabled": &infer.OptionalExpression{Expr: vx("steps", "a", "outputs", "success", "flag"), WaitForCompletion: true},
+			}, outcome: map[string]int{"deploy": 0, "start": 0, "result": 0}},
+		},
+		outputs: map[string]any{"success": map[any]any{"res": &infer.OneOfExpression{Discriminator: "result", Options: map[string]any{
+			"enabled":  map[any]any{"r": vx("steps", "b", "outputs", "success", "v")},
+			"disabled": map[any]any{"m": vx("steps", "b", "disabled", "output", "message")},
+		}}}},
+	}
+	ew, run := verifPrepare(t)
+	in := verifrt.NondetVal("input")
+	res := verifExecute(ew, run, t, in)
+	verifCheck(t, run, res, verifNorm(in), vCheckOpts{})
+	if res.err == nil {
+		m := res.data.(map[any]any)["res"].(map[any]any)
+		if run.produced("b", "disabled", "output") {
+			verifrt.Assert(m["result"] == any("disabled"), "or-disabled yields the disabled message if the step was disabled")
+		} else {
+			verifrt.Assert(m["result"] == any("enabled"), "or-disabled yields the step's result if it ran")
+		}
+	}
 }
